@@ -495,3 +495,5 @@ CHECKS["C13"]["partial"] = [{"theorem": "string-level application of fragments",
 CHECKS["C09"]["classes"] = CHECKS["C09"]["classes"] + ["hydrate-list"]
 CHECKS["C09"]["partial"] = CHECKS["C09"]["partial"] + [{"theorem": "C09 for views containing Keyed / Indexed", "missing": "false on the real code (known finding D17: lists cannot be hydrated at all); not modelled"}]
 CHECKS["C09"]["manifest_note"] = CHECKS["C09"]["manifest_note"].replace("NoSsr and Keyed/Indexed under hydration are not.", "Keyed under hydration is generated (4 families x 4 stores) and is a known finding (D17: the server renders no markers for lists, every such view panics on hydration); NoSsr is not in the language.")
+CHECKS["C09"]["manifest_note"] = CHECKS["C09"]["manifest_note"].replace("NoSsr is not in the language.", "NoSsr is generated (3 families x 4 stores) and judged by the oracle only (after hydration and after every write the document shows what a client render shows); it is not modelled.")
+CHECKS["C09"]["partial"] = CHECKS["C09"]["partial"] + [{"theorem": "C09 for views containing NoSsr", "missing": "the placeholder replacement after mount is not modelled; oracle only"}]
